@@ -19,8 +19,9 @@ RULE = ('E2: every frame script with at most F frames in total spread over '
         'a propagated exception, a zero increment.')
 
 INCS = (0, 0.5, 1, 3)
-CONT = ('nothing', 'switch', 'loop_switch')
-TERM = ('quit', 'quit_loop_world', 'quit_loop_default', 'runtime')
+CONT = ('nothing', 'switch', 'loop_switch', 'clear_handle')
+TERM = ('quit', 'quit_loop_world', 'quit_loop_default', 'runtime',
+        'quit_loop_handler_raises')
 
 
 class Horizon(BaseException):
@@ -59,6 +60,15 @@ class SP(desper.Processor):
         if action == 'switch':
             other = envx.handles['B' if self.label == 'A' else 'A']
             raise desper.SwitchWorld(other)
+        if action == 'clear_handle':
+            # the cache of the current handle is dropped while its world
+            # keeps running: the loop goes on with that same world
+            envx.loop.current_world_handle.clear()
+        if action == 'quit_loop_handler_raises':
+            # an on_quit listener raises something that is not Quit: like
+            # any other exception it reaches the caller
+            envx.quit_raises = True
+            desper.quit_loop(self.world)
         if action == 'loop_switch':
             # the public Loop.switch called directly: no exception, the
             # frame goes on, the next iteration processes the other world
@@ -92,14 +102,26 @@ class QuitListener:
 
     def on_quit(self):
         self.envx.quits.append((self.envx.frame_no, self.label))
+        if getattr(self.envx, 'quit_raises', False):
+            self.envx.quit_raises = False
+            self.envx.boom = Boom('on_quit listener failed')
+            raise self.envx.boom
 
 
 class FixedHandle(desper.Handle):
-    def __init__(self, world):
+    """Yields the prepared world; a load after clear() builds another world
+    (labelled with a star) - the loop must never run that one by itself."""
+
+    def __init__(self, world, rebuild):
         self.world = world
+        self.rebuild = rebuild
+        self.loads = 0
 
     def load(self):
-        return self.world
+        self.loads += 1
+        if self.loads == 1:
+            return self.world
+        return self.rebuild('*' * (self.loads - 1))
 
 
 def run_case(case):
@@ -120,15 +142,20 @@ def run_case(case):
     worlds = {}
     envx.handles = {}
     keep = []
-    for label in 'AB':
+    def build(label):
         w = desper.World()
         for klass in (SP0, SP1, SP2):
             w.add_processor(klass(envx, label))
         q = QuitListener(envx, label)
         keep.append(q)
         w.create_entity(q)
+        return w
+
+    for label in 'AB':
+        w = build(label)
         worlds[label] = w
-        envx.handles[label] = FixedHandle(w)
+        envx.handles[label] = FixedHandle(
+            w, lambda stars, label=label: build(label + stars))
 
     def clock():
         if not envx.script:
@@ -150,6 +177,9 @@ def run_case(case):
     try:
         loop.switch(envx.handles['A'])
         current = 'A'
+        labels = {'A': 'A', 'B': 'B'}
+        cleared = set()
+        reloaded = set()
         for si, frames in enumerate(starts):
             envx.script = [tuple(f) for f in frames]
             envx.readings = []
@@ -157,8 +187,8 @@ def run_case(case):
             envx.quits = []
             first_frame = envx.frame_no + 1
             feats = dict(start_index=min(si, 1),
-                         after_exception=si > 0 and
-                         starts[si - 1][-1][2] == 'runtime')
+                         after_exception=si > 0 and starts[si - 1][-1][2]
+                         in ('runtime', 'quit_loop_handler_raises'))
             if si > 0:
                 hits['restart'] = 1
                 if feats['after_exception']:
@@ -185,14 +215,27 @@ def run_case(case):
                     hits['reading_exactly_zero'] = 1
                 if inc == 0 and fi > 0:
                     hits['zero_increment'] = 1
-                last = 2 if action in ('nothing', 'loop_switch') else pos
+                last = 2 if action in ('nothing', 'loop_switch',
+                                       'clear_handle') else pos
                 for p in range(last + 1):
-                    want.append((first_frame + fi, current, p, dt, True))
-                if action in ('quit_loop_world', 'quit_loop_default'):
+                    want.append((first_frame + fi, labels[current], p, dt,
+                                 True))
+                if action in ('quit_loop_world', 'quit_loop_default',
+                              'quit_loop_handler_raises'):
                     want_quits.append((first_frame + fi, current))
                 if action in ('switch', 'loop_switch'):
                     current = 'B' if current == 'A' else 'A'
                     hits[action] = 1
+                    if current in cleared:
+                        # entering a handle whose cache was dropped loads
+                        # another world
+                        cleared.discard(current)
+                        labels[current] += '*'
+                        reloaded.add(current)
+                        hits['entered_handle_reloads_after_clear'] = 1
+                if action == 'clear_handle':
+                    hits[action] = 1
+                    cleared.add(current)
             got = envx.log
             if [r[:3] for r in got] != [r[:3] for r in want]:
                 raise Violation(
@@ -213,7 +256,8 @@ def run_case(case):
                                     f'loop.running = {g[4]!r} inside a frame',
                                     **feats)
             action = frames[-1][2]
-            if action == 'runtime':
+            if action in ('runtime', 'quit_loop_handler_raises'):
+                hits[action] = 1
                 if outcome is not envx.boom:
                     raise Violation('other_exceptions_propagate_unchanged',
                                     f'start() -> {outcome!r}, expected the '
@@ -233,7 +277,13 @@ def run_case(case):
                                 f'{action}: on_quit log {envx.quits}, '
                                 f'expected {want_quits}', action=action,
                                 **feats)
-            if (loop.current_world is not worlds[current]
+            for name in reloaded:
+                worlds[name] = None      # replaced by a reloaded world
+            expected_world = worlds[current]
+            if expected_world is None and current not in cleared:
+                expected_world = envx.handles[current]()
+            if ((expected_world is not None
+                 and loop.current_world is not expected_world)
                     or loop.current_world_handle
                     is not envx.handles[current]):
                 raise Violation('current_world_and_handle',
@@ -256,6 +306,7 @@ def frame_menu(terminating):
             for pos in range(3):
                 out.append((inc, pos, 'switch'))
             out.append((inc, 1, 'loop_switch'))
+            out.append((inc, 1, 'clear_handle'))
     return out
 
 
@@ -286,6 +337,8 @@ def cases(tier):
     total, max_starts = (3, 2) if tier == 'quick' else (4, 3)
     out = []
     for comp in compositions(total, max_starts):
+        if sum(comp) == 4 and len(comp) > 2:
+            continue    # 4 frames are spread over at most two starts
         families = [list(starts_with(k)) for k in comp]
         for combo in itertools.product(*families):
             for base in BASES:
@@ -306,7 +359,8 @@ def run(tier, rep):
         'which listeners of a frame that quit have still run is judged only '
         'through the processor ledger',
     ]
-    rep.require_hits(switch=1, loop_switch=1, restart=1,
+    rep.require_hits(switch=1, loop_switch=1, restart=1, clear_handle=1,
+                     quit_loop_handler_raises=1, clear_handle_hit=0,
                      restart_after_exception=1,
                      zero_increment=1, reading_exactly_zero=1)
     total, max_starts = (3, 2) if tier == 'quick' else (4, 3)
